@@ -693,6 +693,19 @@ def check_C11(tier, seed):
                                also=vlib.store_also(s)))
             ws.append(Workload(s, sc2 if len(sc2) <= n2 else r.sample(sc2, n2), ["a", "d"], flags={"raw": True, "u8": True}, origin=st2["instance"],
                                also=vlib.store_also(s)))
+        # forests of 4 crates built by create_root / create_sub and moved by set_parent (6 calls): the flattened hierarchy and the
+        # path strings of 1.x, the sibling chains of 2.x after a sub-tree moved under a crate that has ancestors itself
+        mcache = {}
+        for s in schemas:
+            fam = vlib.family(s)
+            if fam not in mcache:
+                mcache[fam] = vlib.mc_forest(wd, fam, 4, 6, crate_ops="move", opnames=("a",) if fam == "v1" else ("a", "b", "c", "d"), timeout=1500)
+                mc_stats.append(mcache[fam][0])
+            st, sc = mcache[fam]
+            r = random.Random(seed * 37 + vlib.ALL.index(s))
+            nm = 200 if tier == "quick" else 5000
+            ws.append(Workload(s, sc if len(sc) <= nm else r.sample(sc, nm), libcheck.NAMES4 + ["d"], flags={"raw": True}, tag="mv", origin=st["instance"],
+                               also=vlib.store_also(s)))
         # the 1.x storage-layer model itself: the three redundant encodings agree after every call, refinement into
         # Library, atomicity under Fail(k) (the 2.x model is checked by C09's run)
         import mcv2store
